@@ -270,9 +270,65 @@ def c13(ctx):
                                     "for Paris datagrams outside the sampled subset the verification flag comes from the independent decoder, not from TLA"])
 
 
-PROPS = {"C20": c20, "C04": c04, "C14": c14, "C12": c12, "C13": c13, "C02": c02, "C11": c11, "C05": c05, "C15": c15, "C19": c19, "C07": c07, "C01": c01, "C03": c03, "C06": c06, "C08": c08, "C09": c09, "C10": c10}
+TUI = "mon/MonTui.tla"
+TUI_ASSUME = ["trace data is injected as published rounds (Tracer::verif_apply_round) into non-running tracers; keys, ticks and resizes are scripted through the cfg-switched crossterm event source of run_app; frames are captured from a ratatui backend",
+              "hostnames, AS and GeoIP text are not resolvable in the sandbox (no DNS, no mmdb), so the leak clauses are decided on IP address text (addresses also stand in for hostnames, which default to the address)",
+              "terminal sizes 1x1 .. 300x100; column sets are the default and three custom sets (27 custom columns make the cassowary layout of ratatui run for minutes and are excluded)"]
 
-MONITOR_OF = {"C20": ("mon/MonSnap.tla", "MonSnap.cfg"), "C04": (LOOP, "MonLoop_C04.cfg"), "C14": (LOOP, "MonLoop_C14.cfg"), "C12": (PKT, "MonPacket_C12.cfg"), "C13": (PKT, "MonPacket_C13.cfg"), "C02": (LOOP, "MonLoop_C02.cfg"), "C11": (LOOP, "MonLoop_C11.cfg"), "C05": (STATE, "MonState_C05.cfg"), "C15": (STATE, "MonState_C15.cfg"), "C19": (STATE, "MonState_C19.cfg"), "C07": (LOOP, "MonLoop_C07.cfg"), "C01": (LOOP, "MonLoop_C01.cfg"), "C03": (LOOP, "MonLoop_C03.cfg"), "C06": (LOOP, "MonLoop_C06.cfg"),
+
+def gen_scripts(ctx, k, num):
+    """TLC -simulate over MC_TuiGen: one script (data updates, keys, ticks) per behaviour of Tui.tla."""
+    import subprocess, shutil
+    from vlib import SPEC, JAVA_OPTS
+    path = os.path.join(WORK, "runs", "%s-scripts-%d.txt" % (ctx.prop, k))
+    os.makedirs(os.path.dirname(path), exist_ok=True)
+    meta = os.path.join(WORK, "tlc", "%s-tuigen-%d" % (ctx.prop, k))
+    env = dict(os.environ, JAVA_TOOL_OPTIONS=JAVA_OPTS)
+    r = subprocess.run(["timeout", "600", "tlc", "-workers", "1", "-simulate", "num=%d" % num, "-depth", "250", "-seed", str(ctx.seed),
+                        "-metadir", meta, "-noGenerateSpecTE", "-config", "MC_TuiGen_%d.cfg" % k, "MC_TuiGen.tla"],
+                       cwd=os.path.join(SPEC, "mc"), env=env, stdout=subprocess.PIPE, stderr=subprocess.STDOUT, text=True)
+    lines = sorted(set(l for l in r.stdout.splitlines() if l.startswith('<<"SCRIPT"')))
+    shutil.rmtree(meta, ignore_errors=True)
+    if not lines:
+        raise ToolError("TLC produced no scripts (MC_TuiGen_%d): %s" % (k, r.stdout[-800:]))
+    with open(path, "w") as f:
+        f.write("\n".join(lines) + "\n")
+    ctx.cov["tlc_generated_behaviours_replayed"] = ctx.cov.get("tlc_generated_behaviours_replayed", 0) + len(lines)
+    log("gen   %d TLC-generated scripts (MC_TuiGen_%d, -simulate) to replay into the real run_app" % (len(lines), k))
+    return path, len(lines)
+
+
+def tui_common(ctx, cfg, fams):
+    q = ctx.quick()
+    ctx.model("mc/MC_Tui.tla", "MC_Tui_1.cfg", workers=12, timeout=1500)
+    ctx.model("mc/MC_Tui.tla", "MC_Tui_2.cfg", workers=8)
+    # spec -> impl -> spec: behaviours of Tui.tla replayed into the real event loop; the log is checked by the
+    # property monitor and validated against Tui.tla itself (ConfTui)
+    for k in (1, 2):
+        path, n = gen_scripts(ctx, k, 60 if q else 1500)
+        ctx.sim("script%d" % k, n, TUI, cfg, package="vt", subcmd="tui", batch=10 ** 9, seed_off=k,
+                env={"VT_SCRIPTS": path}, conf=("conf/ConfTui.tla", "ConfTui_%d.cfg" % k))
+    for i, (fam, nq, nt) in enumerate(fams):
+        ctx.sim(fam, nq if q else nt, TUI, cfg, package="vt", subcmd="tui", batch=40, seed_off=10 + i, par=8)
+
+
+def c17(ctx):
+    tui_common(ctx, "MonTui_C17.cfg", [("tui", 240, 6000), ("long", 8, 200)])
+    ctx.write_evidence("model_checking", "model: Tui.tla - every interleaving of trace updates (longer paths, new flows, new addresses, clear) with every command of the selection state machine and the loop's tick/draw, 1 trace x 2 flows x 3 hops and 2 traces x 1 flow x 2 hops: every drawn frame's indices exist in the displayed data; "
+                       "implementation: distinct scripted runs of the real run_app + TuiApp + renderers (random keys from the whole binding table, trace updates, clears, resizes 1x1..300x100; plus TLC-generated scripts) each frame's selection state checked against the displayed data by TLC",
+                       assumptions=TUI_ASSUME)
+
+
+def c18(ctx):
+    tui_common(ctx, "MonTui_C18.cfg", [("privacy", 240, 6000), ("tui", 80, 2000)])
+    ctx.write_evidence("model_checking", "model: Tui.tla - the privacy level stays within off, 0..hop count and moves one step per command in every reachable state; "
+                       "implementation: distinct scripted runs of the real event loop and renderers; on every captured frame TLC checks that no address of a responding hop with TTL <= n nor the source address is on screen, that hops above n are on screen when the table is certainly visible, and that expand / contract moved n by exactly one step",
+                       assumptions=TUI_ASSUME)
+
+
+PROPS = {"C17": c17, "C18": c18, "C20": c20, "C04": c04, "C14": c14, "C12": c12, "C13": c13, "C02": c02, "C11": c11, "C05": c05, "C15": c15, "C19": c19, "C07": c07, "C01": c01, "C03": c03, "C06": c06, "C08": c08, "C09": c09, "C10": c10}
+
+MONITOR_OF = {"C17": (TUI, "MonTui_C17.cfg"), "C18": (TUI, "MonTui_C18.cfg"), "C20": ("mon/MonSnap.tla", "MonSnap.cfg"), "C04": (LOOP, "MonLoop_C04.cfg"), "C14": (LOOP, "MonLoop_C14.cfg"), "C12": (PKT, "MonPacket_C12.cfg"), "C13": (PKT, "MonPacket_C13.cfg"), "C02": (LOOP, "MonLoop_C02.cfg"), "C11": (LOOP, "MonLoop_C11.cfg"), "C05": (STATE, "MonState_C05.cfg"), "C15": (STATE, "MonState_C15.cfg"), "C19": (STATE, "MonState_C19.cfg"), "C07": (LOOP, "MonLoop_C07.cfg"), "C01": (LOOP, "MonLoop_C01.cfg"), "C03": (LOOP, "MonLoop_C03.cfg"), "C06": (LOOP, "MonLoop_C06.cfg"),
               "C08": (LOOP, "MonLoop_C08.cfg"), "C09": (LOOP, "MonLoop_C09.cfg"), "C10": (LOOP, "MonLoop_C10.cfg")}
 
 
